@@ -2,7 +2,7 @@
     Model: Model/C14_Pheno.v (mirrors G_E_Phenotyping.phenotype/set_h2/set_H2, TruePhenotyping.phenotype,
     MeanPhenotypicBreedingValue.estimate, TrueBreedingValue.estimate). *)
 From Coq Require Import String Permutation Sorted Lqa.
-From PV Require Import Lib.Common Model.C14_Pheno Proofs.C14_Pheno.
+From PV Require Import Lib.Common Model.C14_Pheno Proofs.C14_Pheno Model.C14_Session Proofs.C14_Session.
 Local Open Scope Q_scope.
 
 (** A simulated trial returns exactly one record per taxon, environment and replicate, each carrying that taxon's
@@ -197,6 +197,132 @@ Theorem C14_phenotyped_not_missing_dropna_refuted :
     exists i x, nth_error gtx i = Some x /\ (exists r, In r rows /\ t_taxa r = x) /\ nth_error m i = Some None.
 Proof. exact estimate_dropna_refuted. Qed.
 Print Assumptions C14_phenotyped_not_missing_dropna_refuted.
+
+(** * Sessions: several calls on ONE protocol object, interleaved with in-place updates of the population (genotypes,
+    taxa, groups), of the genomic model (u_a, beta), a different population, parameter changes through the setters
+    (nenv, nrep, variances, set_h2/set_H2) and copies of the protocol — Model/C14_Session.v.
+
+    The i-th operation of a session being a call, its observation is [pheno_obs] of the state reached by the first i
+    operations (the population, model and parameters IN FORCE at that call) and of that call's draws — nothing else —
+    and the call leaves the state unchanged. *)
+Theorem C14_session_call_reads_current_state : forall (s0 : state) (ops : list op) (i : nat) (flat : list (list Q)) (e : estcfg),
+  nth_error ops i = Some (OPheno flat e) ->
+  let st := exec s0 (firstn i ops) in
+  nth_error (run s0 ops) i = Some (pheno_obs st flat e) /\ exec s0 (firstn (S i) ops) = st.
+Proof. exact session_call. Qed.
+Print Assumptions C14_session_call_reads_current_state.
+
+(** No dependence on history: whatever two histories (from whatever initial states) reach the same state, every
+    continuation produces the same observations — they are those of a fresh session started in that state. *)
+Theorem C14_session_history_independent : forall (s1 s2 : state) (h1 h2 r : list op),
+  exec s1 h1 = exec s2 h2 ->
+  skipn (length h1) (run s1 (h1 ++ r)) = run (exec s1 h1) r /\
+  skipn (length h1) (run s1 (h1 ++ r)) = skipn (length h2) (run s2 (h2 ++ r)).
+Proof. exact session_history_independent. Qed.
+Print Assumptions C14_session_history_independent.
+
+(** Copies and calls leave the state alone; a later assignment overwrites an earlier one (nothing of the earlier value
+    survives); updating one population object in place is the same as handing over another object with these contents. *)
+Theorem C14_session_updates_overwrite : forall (s : state),
+  fst (step s OCopy) = s /\ (forall flat e, fst (step s (OPheno flat e)) = s) /\
+  (forall u u', exec s [OSetU u; OSetU u'] = exec s [OSetU u']) /\
+  (forall b b', exec s [OSetBeta b; OSetBeta b'] = exec s [OSetBeta b']) /\
+  (forall n p g x y g0 x0 y0, exec s [OSetGeno g0; OSetTaxa x0; OSetGrp y0; ONewPop n p g x y] = exec s [ONewPop n p g x y]) /\
+  (forall g x y, exec s [OSetGeno g; OSetTaxa x; OSetGrp y] = exec s [ONewPop (s_n s) (s_p s) g x y]).
+Proof.
+  intro s. split; [apply step_copy|]. split; [apply step_pheno_state|]. split; [apply exec_setu_overwrites|].
+  split; [apply exec_setbeta_overwrites|]. split; [apply exec_newpop_overwrites | apply exec_inplace_is_newpop].
+Qed.
+Print Assumptions C14_session_updates_overwrite.
+
+(** Every G_E_Phenotyping call of a session returns one record per taxon, environment and replicate of the design IN
+    FORCE, each carrying the labels IN FORCE of its taxon and its true genotypic value IN FORCE plus the effects; all
+    [nenv] environments in force are present. *)
+Theorem C14_session_one_record_per_cell : forall (s0 : state) (ops : list op) (i : nat) flat e recs est nrep vars,
+  nth_error ops i = Some (OPheno flat e) ->
+  nth_error (run s0 ops) i = Some (OTable (Some recs) est nrep vars) ->
+  let st := exec s0 (firstn i ops) in
+  labels_ok (s_n st) (s_taxa st) (s_grp st) -> length (st_gvm st) = s_n st ->
+  let n := s_n st in
+  let tx := labels_or_auto "Taxon"%string n (s_taxa st) in
+  let tg := grp_col n (s_grp st) in
+  let nreps := firstn (s_nenv st) (s_nrep st) in
+  exists ds, parse_envs nreps n (s_t st) flat = Some (ds, []) /\ length ds = s_nenv st /\
+    map (fun ed : envdraw => length (snd ed)) ds = nreps /\
+    length recs = (n * list_sum nreps)%nat /\
+    (forall ei zenv rs ri zr ze, nth_error ds ei = Some (zenv, rs) -> nth_error rs ri = Some (zr, ze) ->
+       let cell := filter (cell_is (1 + Z.of_nat ei) (1 + Z.of_nat ri)) recs in
+       length cell = n /\
+       forall k x g v er, nth_error tx k = Some x -> nth_error tg k = Some g -> nth_error (st_gvm st) k = Some v -> nth_error ze k = Some er ->
+         nth_error cell k = Some (x, g, (1 + Z.of_nat ei)%Z, (1 + Z.of_nat ri)%Z,
+                                  add_effects v (scale (s_sde st) zenv) (scale (s_sdr st) zr) (scale (s_sdx st) er))) /\
+    (forall en r, (en < 1 \/ en > Z.of_nat (length ds))%Z -> filter (cell_is en r) recs = []).
+Proof. exact session_cells. Qed.
+Print Assumptions C14_session_one_record_per_cell.
+
+(** With all noise variances IN FORCE zero, every record of the call equals the true genotypic value IN FORCE (current
+    genotypes, current model coefficients) of the taxon whose labels IN FORCE it carries. *)
+Theorem C14_session_zero_noise_is_current_truth : forall (s0 : state) (ops : list op) (i : nat) flat e recs est nrep vars,
+  nth_error ops i = Some (OPheno flat e) ->
+  nth_error (run s0 ops) i = Some (OTable (Some recs) est nrep vars) ->
+  let st := exec s0 (firstn i ops) in
+  labels_ok (s_n st) (s_taxa st) (s_grp st) -> length (st_gvm st) = s_n st -> Forall (fun v => length v = s_t st) (st_gvm st) ->
+  zero_vec (s_sde st) -> zero_vec (s_sdr st) -> zero_vec (s_sdx st) ->
+  length (s_sde st) = s_t st -> length (s_sdr st) = s_t st -> length (s_sdx st) = s_t st ->
+  forall rec, In rec recs ->
+    exists k v, nth_error (labels_or_auto "Taxon"%string (s_n st) (s_taxa st)) k = Some (p_taxa rec) /\
+                nth_error (grp_col (s_n st) (s_grp st)) k = Some (p_grp rec) /\
+                nth_error (st_gvm st) k = Some v /\ qlist_eq (p_val rec) v.
+Proof. exact session_zero_noise. Qed.
+Print Assumptions C14_session_zero_noise_is_current_truth.
+
+(** Every TruePhenotyping call of a session: one record per taxon IN FORCE, with its labels and exactly its true value IN FORCE. *)
+Theorem C14_session_true_phenotype_is_current_truth : forall (s0 : state) (ops : list op) (i : nat) flat e tab est,
+  nth_error ops i = Some (OPheno flat e) ->
+  nth_error (run s0 ops) i = Some (OTrue tab est) ->
+  let st := exec s0 (firstn i ops) in
+  labels_ok (s_n st) (s_taxa st) (s_grp st) -> length (st_gvm st) = s_n st ->
+  length tab = s_n st /\
+  forall k x g v, nth_error (labels_or_auto "Taxon"%string (s_n st) (s_taxa st)) k = Some x -> nth_error (grp_col (s_n st) (s_grp st)) k = Some g ->
+                  nth_error (st_gvm st) k = Some v -> nth_error tab k = Some (x, g, v).
+Proof. exact session_true_rows. Qed.
+Print Assumptions C14_session_true_phenotype_is_current_truth.
+
+(** The estimation step after a call, aligned to the population in force: the taxa order and groups are those IN FORCE,
+    and every phenotyped taxon gets the arithmetic mean of all of its records of THIS call's table. *)
+Theorem C14_session_estimate_aligned_to_current_taxa : forall (s0 : state) (ops : list op) (i : nat) flat ug tcols recs tx tg tr m nrep vars,
+  nth_error ops i = Some (OPheno flat (ug, tcols, true)) ->
+  nth_error (run s0 ops) i = Some (OTable (Some recs) (Some (tx, tg, tr, m)) nrep vars) ->
+  let st := exec s0 (firstn i ops) in
+  forall gtx, s_taxa st = Some gtx ->
+  tx = gtx /\ tg = s_grp st /\ tr = tcols /\ length m = length gtx /\
+  exists sel, resolve tcols (st_tnames st) = Some sel /\
+   forall k x, nth_error gtx k = Some x -> (exists r, In r recs /\ p_taxa r = x) ->
+     let rs := filter (of_taxon x) (map prow_trow recs) in
+     rs <> [] /\
+     nth_error m k = Some (Some (map (fun j => sumQ (map (fun r => nth j (t_val r) 0) rs) / inject_Z (Z.of_nat (length rs))) sel)).
+Proof. exact session_est_aligned. Qed.
+Print Assumptions C14_session_estimate_aligned_to_current_taxa.
+
+(** A machine that keeps the genotypic values / labels of an earlier population object (the seeded stale-cache
+    regression, modelled by [pheno_obs_cached]) is not history independent: after an in-place update of the population
+    its call differs from the call on the state in force. *)
+Theorem C14_session_cached_values_refuted :
+  let s1 := exec demo_state [OSetGeno [[[1%Z]]; [[1%Z]]]; OSetTaxa (Some ["b"%string])] in
+  pheno_obs_cached demo_state s1 [[0]; [0]; [0]] (false, ["y"%string], false) <> pheno_obs s1 [[0]; [0]; [0]] (false, ["y"%string], false).
+Proof. exact cached_values_refuted. Qed.
+Print Assumptions C14_session_cached_values_refuted.
+
+(** non-vacuity of the session statements: a concrete 7-operation session (call, in-place genotype and label update,
+    coefficient update, copy, nenv reassignment, call) and its observations *)
+Example C14_session_hyps_satisfiable :
+  run demo_state [OPheno [[0]; [0]; [0]] (false, ["y"%string], true); OSetGeno [[[1%Z]]; [[1%Z]]]; OSetTaxa (Some ["b"%string]);
+                  OSetU [[2]]; OCopy; OSetNenv 2; OPheno [[0]; [0]; [0]; [0]; [0]; [0]] (false, ["y"%string], true)]
+  = [OTable (Some [("a"%string, None, 1%Z, 1%Z, [3 # 2])]) (Some (["a"%string], None, ["y"%string], [Some [3 # 2]])) [1%nat] [[0]; [0]; [0]];
+     ODone; ODone; ODone; ODone; ODone;
+     OTable (Some [("b"%string, None, 1%Z, 1%Z, [5]); ("b"%string, None, 2%Z, 1%Z, [5])])
+            (Some (["b"%string], None, ["y"%string], [Some [10 # 2]])) [1%nat; 1%nat] [[0]; [0]; [0]]].
+Proof. exact demo_session. Qed.
 
 (** non-vacuity: a 2-taxon, 1-trait, 2-environment trial (1 and 2 replicates) with zero noise produces records; the
     label/shape hypotheses hold; an estimate against a genotype matrix of a taxon recorded in two groups exists; an
